@@ -8,15 +8,22 @@
     "complete records survive": for every sequence of valid records followed by ANY remainder (the
     prefix of a cut record, junk, nothing) and any stream tail, sequential reading returns
     exactly those records, clean, at their offsets, and then continues on the remainder
-    ([C06_complete_records_before_the_cut_survive]).  Not mechanised: "the cut is visible" for a
-    remainder that ends inside the version line, the header or the block (it needs the parse of
-    every proper prefix of a record; the marker case is theorem 2), and the gzip container.  Both
+    ([C06_complete_records_before_the_cut_survive]); (5) the visibility half for every cut that
+    falls after the header section - inside the block or inside the end-of-record marker: the
+    partial record is never returned clean and without a finding under a spec policy of warn or
+    fail ([C06_cut_inside_block_or_marker_is_visible]); (6) the same for EVERY cut position of a
+    valid record - magic bytes, version line, header section, block, marker
+    ([C06_every_cut_of_a_record_is_visible]): reading the non-empty proper prefix never yields a
+    record that is clean and without findings.  The header case rests on two lemmas: for any
+    input, a successful header parse that leaves input unread has seen an empty line; a proper
+    prefix of the serialisation of well-formed fields contains none.  Not mechanised: the gzip
+    container (a cut member is an io.ErrUnexpectedEOF of the decompressor, an oracle).  Both
     are evaluated on the implementation for every cut position by the executable statement
     (domain trunc; a cut that leaves fewer than 5 bytes is visible as end-of-file reported
     before the end of the data) and tied to the model by the sequential-reading correspondence
     (domain unm, including cut gzip members). *)
 Require Import Model.Bytes Model.FieldDef Gen.FieldTable Model.Fields Model.Policy Model.Stream Model.HeaderParse Model.Digest Model.Record.
-Require Import Proofs.HeaderProofs Proofs.RecordProofs Proofs.RoundTripProofs.
+Require Import Proofs.HeaderProofs Proofs.RecordProofs Proofs.RoundTripProofs Proofs.CutHeaderProofs.
 
 Theorem C06_complete_header_section_survives_any_remainder :
   forall uni_lower mime_dec p fs rest tl fnd,
@@ -51,3 +58,29 @@ Proof.
   intros. apply (complete_records_survive field_table required_fields); assumption.
 Qed.
 Print Assumptions C06_complete_records_before_the_cut_survive.
+
+Theorem C06_cut_inside_block_or_marker_is_visible :
+  forall uni_lower uni_upper time_ok ip_ok uri_ok wid_ok mime_dec H b32 b64 http_req_ok http_resp_ok o r bd pd x y,
+    valid_record field_table required_fields uni_lower uni_upper time_ok ip_ok uri_ok wid_ok mime_dec H b32 b64
+                 http_req_ok http_resp_ok o r bd pd ->
+    policy_gt_ignore (o_spec o) = true ->
+    (* x: what is left of the block and the marker; y: what the cut removed, not empty *)
+    raw_bytes (r_block r) ++ CRLFCRLF = x ++ y -> y <> [] ->
+    ~ clean_and_silent
+        (parse_record field_table required_fields uni_lower uni_upper time_ok ip_ok uri_ok wid_ok mime_dec H b32 b64
+                      http_req_ok http_resp_ok o
+                      (mkst (s_WARC ++ r_vtxt r ++ CRLF ++ serialize (r_fields r) ++ x) TEOF) []).
+Proof. intros. eapply (cut_after_header_is_visible field_table required_fields); eassumption. Qed.
+Print Assumptions C06_cut_inside_block_or_marker_is_visible.
+
+Theorem C06_every_cut_of_a_record_is_visible :
+  forall uni_lower uni_upper time_ok ip_ok uri_ok wid_ok mime_dec H b32 b64 http_req_ok http_resp_ok o r bd pd c y,
+    valid_record field_table required_fields uni_lower uni_upper time_ok ip_ok uri_ok wid_ok mime_dec H b32 b64
+                 http_req_ok http_resp_ok o r bd pd ->
+    policy_gt_ignore (o_spec o) = true ->
+    marshal r = c ++ y -> y <> [] ->            (* c: what the cut left of the record, y: what it removed *)
+    ~ clean_and_silent
+        (snd (unmarshal_plain field_table required_fields uni_lower uni_upper time_ok ip_ok uri_ok wid_ok mime_dec H b32 b64
+                              http_req_ok http_resp_ok o (mkst c TEOF))).
+Proof. intros. eapply (every_cut_is_visible field_table required_fields); eassumption. Qed.
+Print Assumptions C06_every_cut_of_a_record_is_visible.
